@@ -319,6 +319,38 @@ def check_module_api(model: Model, report: Report, rule: str) -> None:
                     report.fail(rule, "__init__", f"rebound:{t.id}", f"{t.id} is bound more than once at module level")
 
 
+def check_no_validity_errors_at_evaluation(model: Model, report: Report, rule: str) -> None:
+    """Index-range, syntax and name errors are properties of the query: they are raised while compiling, so that every
+    entry point reports them identically.  Raised from a resolve() generator they surface only when (and if) the
+    iterator reaches that selector: find() raises, find_one() may return a node, finditer() raises later."""
+    compile_only = {"JSONPathIndexError", "JSONPathSyntaxError", "JSONPathNameError", "JSONPathLexerError"}
+    n = 0
+    for ci in model.classes.values():
+        if ci.module.short not in ("selectors", "segments"):
+            continue
+        res = ci.methods.get("resolve")
+        if res is None:
+            continue
+        todo, seen = [res], set()
+        while todo:
+            f = todo.pop()
+            if f.qualname in seen:
+                continue
+            seen.add(f.qualname)
+            n += 1
+            for node in ast.walk(f.node):
+                if isinstance(node, ast.Raise) and isinstance(node.exc, ast.Call):
+                    name = ast.unparse(node.exc.func).split(".")[-1]
+                    if name in compile_only:
+                        report.fail(rule, f.qualname, f"validity-error-at-evaluation:{name}", f"{name} is raised on the evaluation path of {ci.name}.resolve (in {f.name}): a validity error that is not reported by compile() reaches the user through find() but not, or later, through find_one() / finditer()", file=f.file, line=node.lineno)
+                if isinstance(node, ast.Call) and isinstance(node.func, ast.Attribute) and isinstance(node.func.value, ast.Name) and node.func.value.id == "self":
+                    m = ci.find_method(node.func.attr)
+                    if m is not None:
+                        todo.append(m)
+    if n and not any(f.rule == rule and "validity-error-at-evaluation" in f.key for f in report.findings):
+        report.ok(rule, "<selectors, segments>", "no index / syntax / name error is raised on an evaluation path", detail={"functions": n})
+
+
 def check(model: Model, report: Report) -> None:
     report.rule("R15.1", "module-level compile/find/finditer/find_one are the bound methods of DEFAULT_ENV = JSONPathEnvironment()")
     report.rule("R15.2", "environment methods are eager pure delegations self.compile(query).<same method>(value) with unchanged arguments")
@@ -328,4 +360,6 @@ def check(model: Model, report: Report) -> None:
     check_module_api(model, report, "R15.1")
     check_env_methods(model, report, "R15.2", "R15.4")
     check_query_methods(model, report, "R15.3")
+    report.rule("R15.5", "validity errors (index range, syntax, unknown name) are raised by compile(), never from resolve(): otherwise find(), find_one() and finditer() disagree on an invalid query")
+    check_no_validity_errors_at_evaluation(model, report, "R15.5")
     report.extra["explanation"] = "C15: each entry point interpreted with finditer/compile replaced by markers; results compared with the delegation shape of its role (ITER / LIST / FIRST)."
